@@ -6,7 +6,7 @@ from hypothesis import strategies as st
 
 from mv import gen_atoms, gen_geom, mf, model_atoms as M
 from mv.quiet import silenced
-from mv.runner import HypPart, Violation
+from mv.runner import FuzzPart, HypPart, Violation
 
 PROPERTY = "C12"
 RULE = ("Hypothesis typed structures (1-6 atoms, all four term kinds incl. impropers with/without coefficient tables, "
@@ -140,4 +140,5 @@ def thorough_case(draw):
 
 PARTS = [
     HypPart("replicate", lambda tier: case() if tier == "quick" else thorough_case(), oracle, {"quick": 2500, "thorough": 25000}),
+    FuzzPart("coverage-guided-replicate", "replicate", runs=5000),
 ]
